@@ -15,7 +15,7 @@ ADMIN_IP = "10.0.0.1"
 IPS = {"listed": ADMIN_IP, "unlisted": "10.9.9.9", "none": ""}
 
 BASE = dict(MaxI=2, EpochGuard=True, ZeroIsNone=False, TargetGE=False, SourceChecked=True, SourceStrict=False,
-            PropGE=False, GenesisRule=True, GenericDeniesSlashable=True, AttestChecksDomain=True, ExitIPCheck=True)
+            PropGE=False, GenesisRule=True, DeniedKeepsState=True, GenericDeniesSlashable=True, AttestChecksDomain=True, ExitIPCheck=True)
 SEQ_EXTRA = dict(Roots={"A", "B"}, AttDoms={"att", "other"}, PropDoms={"prop", "other"},
                  GenDoms={"att", "prop", "exit", "randao"}, Kinds={"att", "prop"})
 
@@ -27,7 +27,7 @@ PROPS = {
                 mutants=[("EpochGuard", False), ("ZeroIsNone", True), ("PropGE", True)],
                 trace_inv=["NoDoubleProposal", "SlotsIncrease"]),
     "C09": dict(kinds={"att", "prop"}, inv=["AdvancingSigned"], props=[],
-                mutants=[("SourceStrict", True), ("GenesisRule", False)],
+                mutants=[("SourceStrict", True), ("GenesisRule", False), ("DeniedKeepsState", False)],
                 trace_inv=["AdvancingSigned"]),
     "C05": dict(kinds={"att", "prop"}, inv=["RoutedByDomain"], props=[],
                 mutants=[("GenericDeniesSlashable", False), ("AttestChecksDomain", False), ("ExitIPCheck", False)],
@@ -162,6 +162,7 @@ class Builder:
     def __init__(self, tag, conc_name, conc, maxi):
         self.tag, self.conc_name, self.conc, self.maxi = tag, conc_name, conc, maxi
         self.scenarios = []
+        self.force_batch = None   # None: alternate by scenario parity; True / False: every scenario with / without the batch endpoint
         self.expect = {}   # scenario id -> {"ops": {rid: [verdicts]}, "final": {k: (s,t,p) or None}}
         self.meta = {}     # scenario id -> {rid: {"wf":bool, "ip":class}}
         self._cur = None
@@ -209,19 +210,26 @@ class Builder:
         sc, sid = self._cur, self._cur["id"]
         nsteps = max(len(l["steps"]) for l in self._lanes)
         batch_mode = all(l["batchable"] for l in self._lanes) and len(self._lanes) > 1 and (len(self.scenarios) % 2 == 0)
+        if self.force_batch is not None:
+            batch_mode = self.force_batch and len(self._lanes) > 1
         for i in range(nsteps):
             row = [(l, l["steps"][i]) for l in self._lanes if i < len(l["steps"])]
             if any(st["op"] == "restart" for _, st in row):
                 sc["ops"].append(dict(id="rs%d" % i, kind="restart"))
-            if batch_mode and all(st["op"] == "att" for _, st in row) and len(row) > 1:
-                rid = "b%d" % i
-                ents = [dict(k=l["k"], s=st["s"], t=st["t"], root=st.get("root", "A"), dom=st.get("dom", "att"),
-                             by=st.get("by", "name")) for l, st in row]
-                sc["ops"].append(dict(id=rid, kind="atts", ents=ents))
-                self.expect[sid]["ops"][rid] = [st.get("v") for _, st in row]
-                self.meta[sid][rid] = dict(wf=all(l["wf"] for l, _ in row), ip="none")
-                continue
-            for l, st in row:
+            singles = row
+            if batch_mode:
+                # the attestation steps of all lanes at this position go through the BATCH endpoint as one request
+                # (distinct keys); everything else is sent singly
+                atts = [(l, st) for l, st in row if st["op"] == "att"]
+                if len(atts) > 1:
+                    rid = "b%d" % i
+                    ents = [dict(k=l["k"], s=st["s"], t=st["t"], root=st.get("root", "A"), dom=st.get("dom", "att"),
+                                 by=st.get("by", "name")) for l, st in atts]
+                    sc["ops"].append(dict(id=rid, kind="atts", ents=ents))
+                    self.expect[sid]["ops"][rid] = [st.get("v") for _, st in atts]
+                    self.meta[sid][rid] = dict(wf=all(l["wf"] for l, _ in atts), ip="none")
+                    singles = [(l, st) for l, st in row if st["op"] != "att"]
+            for l, st in singles:
                 rid = "k%ds%d" % (l["k"], i)
                 if st["op"] == "att":
                     op = dict(id=rid, kind="att", by=st.get("by", "name"), dom=st.get("dom", "att"),
@@ -438,16 +446,27 @@ def run(prop, tier, seed):
                                          dict(op="prop", slot=q["slot2"], root=q["r2"], v=q["v2"], by=("keypad", "name", "key")[(qi + ci) % 3])], (None, None, q["np"]))
             b.flush()
             # (3) simulated histories (restarts, by name / by key, foreign domains)
-            for h in hists:
-                steps = [dict(x) for x in h]
-                last = steps[-1]["db"]
-                b.add_history(None, steps, (last["s"], last["t"], last["ps"]))
-            b.flush()
+            # each simulated history is replayed singly and, for attestations, once more through the batch endpoint
+            for mode in ([False, True] if "att" in p["kinds"] else [False]):
+                b.flush()
+                b.force_batch = mode
+                for h in hists:
+                    steps = [dict(x) for x in h]
+                    last = steps[-1]["db"]
+                    b.add_history(None, steps, (last["s"], last["t"], last["ps"]), batchable=True)
+                b.flush()
+            b.force_batch = None
             # (4) attack histories from the design mutants (expected outcomes are those of the SHIPPED model,
             #     which we do not have here: no expectation, layer P decides)
-            for a in attacks:
-                b.add_history(None, [dict(x) for x in a["hist"]], None)
-            b.flush()
+            for mode in ([False, True] if "att" in p["kinds"] else [False]):
+                b.flush()
+                b.force_batch = mode
+                for a in attacks:
+                    b.add_history(None, [dict(x) for x in a["hist"]], None, batchable=True)
+                    if mode:
+                        b.add_history(None, [dict(x) for x in a["hist"]], None, batchable=True)   # a second lane so that a batch forms
+                b.flush()
+            b.force_batch = None
             builders.append(b)
 
         if apa:
